@@ -10,6 +10,7 @@ import (
 	"sync"
 	"sync/atomic"
 	"testing"
+	"time"
 
 	kit "github.com/pion/webrtc/v4/internal/verifkit"
 )
@@ -302,7 +303,7 @@ func TestVerifC11(t *testing.T) { //nolint:gocognit,cyclop,maintidx
 	run.Assume("CreateOffer/CreateAnswer contain no verifhook.Point sites; interleavings come from real parallelism (GOMAXPROCS) plus " +
 		"seeded runtime.Gosched between calls; Perturb only affects the operations queue used by Set*Description")
 
-	n := kit.N(200, 4000)
+	n := kit.N(200, 3000)
 	run.Parallel(n, kit.N(4, 8), func(i int) {
 		r := run.CaseRand(i)
 		a, b := rigMustPC(rigOpts{}), rigMustPC(rigOpts{})
@@ -437,8 +438,12 @@ func TestVerifC11(t *testing.T) { //nolint:gocognit,cyclop,maintidx
 				for c := 0; c < calls; c++ {
 					if lockstep {
 						arrived.Add(1)
-						for arrived.Load() < int64(g*(c+1)) {
-							runtime.Gosched()
+						for spins := 0; arrived.Load() < int64(g*(c+1)); spins++ {
+							if spins < 2000 {
+								runtime.Gosched()
+							} else {
+								time.Sleep(20 * time.Microsecond) // a slow peer (loaded box / -race): stop burning CPU
+							}
 						}
 					}
 					la.genSoft(a, pattern[w][c], fmt.Sprintf("g%d", w))
